@@ -47,6 +47,7 @@ def _ops():
     never = st.one_of(
         st.builds(lambda n, t: f"{n};255;3;0;{t};\n", node, st.sampled_from((6, 1, 9, 18))),
         st.sampled_from(("255;255;3;0;3;\n", "junk\n", "0;255;3;0;14;ready\n")),
+        st.sampled_from(("0;255;0;0;18;2.1\n", "0;255;0;0;18;2.2.0\n", "0;255;3;0;2;2.0.1\n", "0;255;3;0;2;2.2\n", "0;255;0;0;18;2.0\n")),
     )
     return st.lists(gen.with_ack(gen.weighted((6, missing_kinds), (2, present), (2, never))).map(lambda l: ["rx", l]), min_size=8, max_size=30)
 
@@ -68,6 +69,7 @@ def strategy(tier: str):
             "registry": _registry,
             "ops": _ops(),
             "listen_mode": st.sampled_from(("fresh", "persistent")),
+            "debug_log": st.sampled_from((False, False, True)),
             "fail_requests": st.one_of(st.just([]), st.lists(st.integers(0, 6), max_size=3, unique=True).map(sorted)),
         }
     )
